@@ -18,6 +18,21 @@ CHECKS = {
             "All byte strings of length <= 3 over all 256 bytes, length 4 (thorough 5) over an 80-symbol alphabet, and the complete single-edit family (every substitution, truncation, deletion, insertion; thorough: pairs) of every encoding of a corpus of small trees in V1/V2/mixed epochs are fed to decode, len, skip, split_off and kind of the real crate under catch_unwind with a counting allocator, and every answer is compared with the reference decoder (strict and UTF-8-blind); unknown-field / unknown-variant / opaque-element carriers are round-tripped wherever decoding succeeds.",
             "out-of-bounds reads are not observable from safe Rust; inputs longer than 5 bytes only as edits of the corpus",
             "DESIGN.md §5 C07"),
+    "C08": ("codecmc", "exploration",
+            "bounded-exhaustive enumeration of messages and frames, differential against a table-driven reference frame codec",
+            "Every kind x every nested alternative x boundary serials/ids/uuids/payloads is generated from the reference table, parsed by the real parser, re-serialised (must be the identical canonical frame) and re-parsed; all frames of length <= 7 (8 thorough) for all 256 kind bytes, all value-slot shapes over a small alphabet, and the complete single-byte-edit / truncation / extension / length-field family of one frame per alternative are judged accept/reject against the reference parser, and everything accepted goes through serialize -> reference parse -> real parse.",
+            "trusts the frame table in refcodec (DESIGN Appendix B), itself checked in both directions against the crate; consistent swaps of two same-typed fields in parser and serializer are left to the repository's golden vectors",
+            "DESIGN.md §5 C08"),
+    "C13": ("codecmc", "exploration",
+            "bounded-exhaustive enumeration of (value encoding, from, to) triples against an independent reference decoder",
+            "Every encoding (V1, V2, every mixed labelling) of all trees up to 3 (thorough 4) nodes and of nesting chains at depths 28-33, for all 88 (from,to) version pairs in and around 1.14..1.20, is converted by the real code and judged: InvalidVersion exactly outside the range, identity (borrowed) for same-or-newer epochs, otherwise success with a reference-well-formed output that decodes to the same value, contains no 1.20 container kind, is a fixpoint of conversion, and agrees across the three entry points; all byte strings up to length 3 (4 over 80 symbols) and the single-edit families of the small corpus must not panic or over-allocate.",
+            "well-formedness judged by refcodec; success on ill-formed input is not judged",
+            "DESIGN.md §5 C13"),
+    "C14": ("codecmc", "exploration",
+            "exhaustive enumeration of stream chunkings and of I/O answer scripts (deviation-bounded prefix-replay exploration) on the real Packetizer / TokioTransport / Buffered",
+            "Packetizer: all 2^(n-1) chunkings x 4 interface disciplines of all 1-3-frame streams of <= 18 (21) bytes; for frames up to 5 MiB every cut at frame / prefix / 64 KiB boundaries, cut pairs and fixed-step reads. TokioTransport over a scripted AsyncRead+AsyncWrite whose every poll_read/poll_write/poll_flush answer (full, 1/2/3/half bytes, Pending, EOF, Ok(0), Err) is a choice point: all scripts for an 11-byte stream, all scripts with <= 2-3 (thorough 3-4) non-default answers otherwise. Buffered over a scripted inner transport likewise. Oracles: reference framing, delivered-bytes accounting from the script log, flush/EOF/zero-write/error rules, 8 KiB back-pressure boundary.",
+            "larger streams are not cut at every position; at most one Pending in a row",
+            "DESIGN.md §5 C14"),
 }
 
 NOT_YET = "check not built yet in this round (construction order in DESIGN.md §8); not claimed until it runs"
